@@ -45,7 +45,7 @@ def _nodes_calling(g, name, attr_only=False):
     return g.find(pred)
 
 
-def check(run, P):
+def _check_main(run, P):
     run.rule("C04.post", "add_with_deps appends a statement only after the loop over "
              "its dependencies and after the executed/planned/batch membership exits",
              minimum=4)
@@ -563,3 +563,9 @@ def _attrs(run, P, C):
                    why=f"the controller reads stmt.{a} for every statement, but "
                        f"{K.name} defines no such field or attribute; a phase "
                        f"containing a {K.name} raises AttributeError in the interpreter")
+
+
+def check(run, P):
+    _check_main(run, P)
+    from . import generic
+    generic.lints(run, P, "C04")
